@@ -219,6 +219,8 @@ def store_lower(v):
 
 
 def norm(v):
+    if isinstance(v, PSet) and v.m is not None:
+        return v.m
     if isinstance(v, PDict) and v.m is not None:
         return v.m
     if isinstance(v, PList) and v.m is not None:
@@ -249,15 +251,36 @@ class DDEntry:
         return self.d.entry(self.k)
 
 
+class PySet:
+    """record class for Python sets: field `elems` is *some* enumeration of the members (a list without duplicates);
+    code that depends on which enumeration it is, is order-dependent (hash seed)"""
+
+
+class MSet:
+    """mutable symbolic set"""
+    __slots__ = ("elems",)
+
+    def __init__(self, elems):
+        self.elems = elems        # VL term
+
+    @property
+    def t(self):
+        return VObj(z3.IntVal(REG.info(PySet).cid), VCons(VList(self.elems), VNil), z3.IntVal(0))
+
+
+class PSet(set):
+    m = None
+
+
 def is_symbolic(v):
     return isinstance(v, (SV, MList, MDict))
 
 
 def deep_symbolic(v, _depth=0):
     """True if v contains symbolic leaves or interpreter objects (cannot be handed to native code)."""
-    if isinstance(v, (SV, MList, MDict, Obj, MDefaultDict, DDEntry)):
+    if isinstance(v, (SV, MList, MDict, Obj, MDefaultDict, DDEntry, MSet)):
         return True
-    if isinstance(v, (PDict, PList)) and v.m is not None:
+    if isinstance(v, (PDict, PList, PSet)) and v.m is not None:
         return True
     if _depth > 50:
         return False
@@ -286,8 +309,16 @@ def lower(v, _seen=None):
     import enum
     if isinstance(v, SV):
         return v.t
-    if isinstance(v, (MList, MDict, MDefaultDict, DDEntry)):
+    if isinstance(v, (MList, MDict, MDefaultDict, DDEntry, MSet)):
         return v.t
+    if isinstance(v, PSet) and v.m is not None:
+        return v.m.t
+    if isinstance(v, (set, frozenset)):
+        try:
+            items = sorted(v, key=repr)
+        except TypeError:
+            items = list(v)
+        return VObj(z3.IntVal(REG.info(PySet).cid), VCons(VList(vlist(lower(x) for x in items)), VNil), z3.IntVal(0))
     if v is None:
         return VNone
     if isinstance(v, bool):
@@ -556,6 +587,8 @@ def is_instance(t, pycls):
         return is_VTuple(t)
     if pycls is dict:
         return is_VDict(t)
+    if pycls in (set, frozenset):
+        return z3.And(is_VObj(t), cls_of(t) == REG.info(PySet).cid)
     if pycls is type(None):
         return is_VNone(t)
     if pycls is object:
@@ -647,3 +680,11 @@ def decode(term, build_objects=True):
             return info.pycls(**{k: v for k, v in fields.items() if v is not _MISSING})
         return Obj(info.pycls, fields)
     raise ValueError(f"cannot decode {term}")
+
+
+REG.register(PySet, ["elems"], build=lambda elems=(): set(x for x in (elems or []) if isinstance(x, (str, int, tuple))))
+
+
+def set_elems(t):
+    """enumeration (VL) of a set value"""
+    return vl(nth(fs_of(t), 0))
